@@ -237,6 +237,34 @@ def run(ctx):
                             meta={'kind': 'empty-book:' + ' '.join(path), 'setting': 'noDatabase', 'flag': False, 'env': False, 'cfg': 'absent', 'where': 'none', 'winner': '-', 'expect': None})
                 cases += [a, b]
                 pairs.append((a, b))
+    # --no-database leaves every other setting alone: the log named by flag, environment or configuration file is still the one read,
+    # the date format given by any of them still applies
+    for path, args in ((['reg'], ()), (['csv', 'log'], ()), (['report', 'totals'], ()), (['bal'], ())):
+        for setting in ('logfile', 'dateFormat'):
+            for src in ('flag', 'env', 'cfg'):
+                if setting == 'logfile':
+                    files = {b'log.yaml': b'2021/01/24:\n  wrong: 9\n', b'other.yaml': log, b'food.yaml': book}
+                    val, key = 'other.yaml', 'LogFileName'
+                else:
+                    files = {b'log.yaml': b'24.01.2021:\n  soup: 2\n  bread: 1\n', b'food.yaml': book}
+                    val, key = '02.01.2006', 'DateFormat'
+                g = {'noColor': True, 'today': '28.01.2021' if setting == 'dateFormat' else '2021/01/28'}
+                e, cfgd = {}, None
+                if src == 'flag':
+                    g[setting] = val
+                elif src == 'env':
+                    e[setting] = val
+                else:
+                    cfgd = {'where': 'flag', 'path': 'my.cfg', 'exists': True, 'entries': {key: val}}
+                    g['config'] = 'my.cfg'
+                a = AppCase(path, args, g=dict(g, noDatabase=True), env=e, cfg=cfgd, files=files, disk=True,
+                            meta={'kind': 'no-database (%s by %s):' % (setting, src) + ' '.join(path), 'setting': 'noDatabase x ' + setting, 'flag': True, 'env': src == 'env',
+                                  'cfg': 'set' if src == 'cfg' else 'absent', 'where': 'none', 'winner': '-', 'expect': None, 'have_file': True})
+                b = AppCase(path, args, g=g, env=e, cfg=cfgd, files={**files, b'food.yaml': b''}, disk=True,
+                            meta={'kind': 'empty-book (%s by %s):' % (setting, src) + ' '.join(path), 'setting': 'noDatabase x ' + setting, 'flag': False, 'env': src == 'env',
+                                  'cfg': 'set' if src == 'cfg' else 'absent', 'where': 'none', 'winner': '-', 'expect': None})
+                cases += [a, b]
+                pairs.append((a, b))
     # a depth limit of 1 from the configuration file is a limit like any other (not "unset")
     for variant in (0, 1):
         files = {b'food.yaml': chain(variant), b'log.yaml': b''}
